@@ -142,8 +142,14 @@ def typed_skeletons():
                                         OP('I32Const', value=L.fresh()), OP('Drop')])
     T('dead-if-else-after-return', lambda L: [OP('Return'), OP('I32Const', value=L.fresh()), OP('If', blockty=BT_EMPTY), OP('Nop'), OP('Else'), OP('Unreachable'), OP('End'), OP('I32Const', value=L.fresh()), OP('Drop')])
     T('return-call-then-code', lambda L: [OP('ReturnCall', function_index=u32(0)), OP('I32Const', value=L.fresh()), OP('Drop')])
-    T('locals', lambda L: [OP('LocalGet', local_index=u32(2)), OP('Drop'), OP('LocalGet', local_index=u32(0)), OP('LocalSet', local_index=u32(3)), OP('LocalGet', local_index=u32(1)), OP('LocalTee', local_index=u32(1)),
-                           OP('Drop')])
+    T('if-else-both-arms-diverge-then-code', lambda L: [OP('Block', blockty=BT_EMPTY), OP('I32Const', value=L.fresh()), OP('If', blockty=BT_EMPTY), OP('Br', relative_depth=u32(1)), OP('Else'), OP('Return'), OP('End'),
+                                                       OP('I32Const', value=L.fresh()), OP('Drop'), OP('End'), OP('I32Const', value=L.fresh()), OP('Drop')])
+    T('if-else-result-both-diverge-consumer', lambda L: [OP('I32Const', value=L.fresh()), OP('If', blockty=BT_TYPE('i32')), OP('I32Const', value=L.fresh()), OP('I32Const', value=L.fresh()), OP('BrIf', relative_depth=u32(0)), OP('Unreachable'), OP('Else'),
+                                                         OP('Return'), OP('End'), OP('Drop'), OP('I32Const', value=L.fresh()), OP('Drop')])
+    T('dead-empty-block-after-return', lambda L: [OP('I32Const', value=L.fresh()), OP('Drop'), OP('Return'), OP('Nop'), OP('Block', blockty=BT_EMPTY), OP('Nop'), OP('End'), OP('I32Const', value=L.fresh()), OP('Drop')])
+    T('dead-empty-block-after-br', lambda L: [OP('Block', blockty=BT_EMPTY), OP('Br', relative_depth=u32(0)), OP('Block', blockty=BT_EMPTY), OP('End'), OP('End'), OP('I32Const', value=L.fresh()), OP('Drop')])
+    T('locals', lambda L: [OP('LocalGet', local_index=u32(2)), OP('Drop'), OP('LocalGet', local_index=u32(0)), OP('LocalSet', local_index=u32(5)), OP('LocalGet', local_index=u32(1)), OP('LocalTee', local_index=u32(1)),
+                           OP('Drop'), OP('LocalGet', local_index=u32(4)), OP('Drop')])
     return out
 
 
